@@ -139,7 +139,7 @@ func genTree(r *Rng, ntypes int) *genQueue {
 				q.guar[k] = v / 2
 			}
 		}
-		if r.Chance(20) {
+		if r.Chance(35) {
 			who := []string{"u1", "u2", "*"}[r.Intn(3)]
 			lim := r.res(ntypes, 2, 12, true)
 			if q.max != nil {
